@@ -71,6 +71,7 @@ def run(ctx):
     # the partial-descriptor list: what is extended into the result (a name, or sorted(<name / comprehension>, ...))
     PL = None
     ok = False
+    inplace_partials = []
     for ea in ext_args:
         core = ea
         if isinstance(core, ast.Call) and isinstance(core.func, ast.Name) and core.func.id == "sorted" and core.args:
@@ -78,6 +79,8 @@ def run(ctx):
             core = core.args[0]
         if isinstance(core, ast.Name):
             PL = core.id
+        elif isinstance(core, (ast.ListComp, ast.GeneratorExp)):
+            inplace_partials.append(core)
     PL = PL or "partials"
     sorts = [x for x in own_nodes(md.node) if isinstance(x, ast.Call) and isinstance(x.func, ast.Attribute) and x.func.attr == "sort" and dotted(x.func.value) == PL]
     for s_ in sorts:
@@ -97,6 +100,11 @@ def run(ctx):
             for cnd in x.value.generators[0].ifs:
                 at.extend(canon_atom(a, pol) for a, pol in split_atoms(cnd, True) if not isinstance(a, ast.BoolOp))
             memberships.append((x, at))
+    for comp_ in inplace_partials:
+        at = []
+        for cnd in comp_.generators[0].ifs:
+            at.extend(canon_atom(a, pol) for a, pol in split_atoms(cnd, True) if not isinstance(a, ast.BoolOp))
+        memberships.append((comp_, at))
     for x, at in memberships:
         okp = any(t[0] == "truthy" and t[1].endswith(".endswith('.*')") and t[3] is True for t in at)
         c.ob("R1", okp, md, "partial-keys-end-with-dot-star", "a key is treated as a partial descriptor only if it ends with '.*'" if okp else
@@ -118,22 +126,31 @@ def run(ctx):
     c.ob("R1", ok, md, "partial-predicate", "'p.*' matches 'p' and 'p.<anything>'" if ok else
          "the partial-descriptor predicate is no longer 'event == p or event.startswith(p + \".\")'", md.node)
     # ---- R2 internal-event cut-off ---------------------------------------------------------
-    cut = [x for x in own_nodes(md.node) if isinstance(x, ast.If) and "startswith" in norm(x.test) and any(isinstance(s, ast.Return) for s in x.body)]
-    if c.expect("R2", "internal-event cut-off in _matching_descriptors", len(cut), 1, md,
-                    "the descriptor matcher has no conditional early return for synthetic events (done.* / error.* / after.* / xstate.*) any more: "
-                    "they are matched by partial descriptors and the bare wildcard, or nothing but the exact key is ever matched"):
-        cu = cut[0]
+    # fact: the partial and wildcard contributions are made only for events that do NOT start with one of the engine's own prefixes
+    # (written as an early return after the exact match, or as an ``if not event.startswith(..):`` block around them); the exact
+    # match is not under that test
+    def _cut_atoms(x):
+        out_ = []
+        for a_, pol_ in guards_at(md, x):
+            t_ = canon_atom(a_, pol_) if not isinstance(a_, ast.BoolOp) else None
+            if t_ and t_[0] == "truthy" and ".startswith(" in t_[1] and t_[1].startswith(ev_param + ".") and t_[3] is False:
+                out_.append(a_)
+        return out_
+    later_c = [(k, x) for k, x in app if k in ("partials", "wild")]
+    cut_as = [(_cut_atoms(x), x) for k, x in later_c]
+    if c.expect("R2", "internal-event cut-off in _matching_descriptors", sum(1 for ca_, x in cut_as if ca_), max(1, len(later_c)), md,
+                "the descriptor matcher no longer keeps synthetic events (done.* / error.* / after.* / xstate.*) away from partial descriptors and the bare wildcard: "
+                "a user wildcard swallows the engine's own events (or nothing but the exact key is ever matched)"):
         pref = set()
-        for x in ast.walk(cu.test):
-            s = const_str(x)
-            if s:
-                pref.add(s)
-        cn = g.nodes_of(cu.test)
-        exact = [n for k, x in app if k == "exact" for n in cfg_node_of(md, x)]
-        later = [n for k, x in app if k in ("partials", "wild") for n in cfg_node_of(md, x)]
-        ok = all(g.can_reach(e, t, follow_exc=False) for e in exact for t in cn) and all(g.can_reach(t, l, follow_exc=False) for t in cn for l in later)
-        c.ob("R2", ok, md, "cutoff-between-exact-and-partial", "synthetic events return after the exact match, before partials and '*'" if ok else
-             "the internal-event cut-off is not placed between the exact match and the partial/wildcard matches", cu)
+        for ca_, x in cut_as:
+            for a_ in ca_:
+                for y in ast.walk(a_):
+                    s_ = const_str(y)
+                    if s_:
+                        pref.add(s_)
+        exact_cut = [x for k, x in app if k == "exact" and _cut_atoms(x)]
+        c.ob("R2", not exact_cut, md, "cutoff-between-exact-and-partial", "synthetic events still get their exact match; only partials and '*' are withheld" if not exact_cut else
+             "the exact match is withheld from synthetic events too: done.* / after.* handlers registered under their exact key never fire", (exact_cut or [md.node])[0])
         syn = _synthetic_prefixes(p)
         c.floor("R2", "synthetic event families constructed by the engine", len(syn), 3)
         for fam, sites in sorted(syn.items()):
